@@ -286,6 +286,18 @@ class TermEval:
             if isinstance(s, ast.Assign) and len(s.targets) == 1 and isinstance(s.targets[0], ast.Name):
                 self.env[s.targets[0].id] = self.ev(s.value)
                 continue
+            if isinstance(s, ast.Assign) and len(s.targets) == 1 and isinstance(s.targets[0], (ast.Tuple, ast.List)) \
+                    and len(s.targets[0].elts) == 2 and all(isinstance(t, ast.Name) for t in s.targets[0].elts):
+                # a, b = x.chunk(2)  /  torch.chunk(x, 2): the two halves of the [examples; references] batch
+                h = self.halves(ast.Starred(value=s.value, ctx=ast.Load()))
+                if h is not None:
+                    self.env[s.targets[0].elts[0].id], self.env[s.targets[0].elts[1].id] = h
+                    continue
+                if isinstance(s.value, (ast.Tuple, ast.List)) and len(s.value.elts) == 2:
+                    v0, v1 = self.ev(s.value.elts[0]), self.ev(s.value.elts[1])
+                    self.env[s.targets[0].elts[0].id], self.env[s.targets[0].elts[1].id] = v0, v1
+                    continue
+                return ("stop", s)
             if isinstance(s, ast.AugAssign) and isinstance(s.target, ast.Name):
                 cur = self.ev(ast.Name(id=s.target.id, ctx=ast.Load()))
                 v = self.ev(s.value)
